@@ -98,10 +98,10 @@ Theorem C13_merge_no_foreign_refs : forall inputs st, all_WFh inputs -> merge_wi
 Proof. exact merge_no_foreign_refs. Qed.
 Print Assumptions C13_merge_no_foreign_refs.
 
-(* ---- order independence, the part that is proved.  For inputs in which no type is declared with two different
-        supertypes (no_competing, boolean twin no_competingb): two tuples with the same declarations - in particular a
-        permutation of the arguments - whose merges both succeed give the same types, the same supertypes and the same
-        effective features (as sets of (name, range, element type or TOP)): ts_equiv. ---- *)
+(* ---- order independence for inputs without competing supertypes (no_competing, boolean twin no_competingb) when both
+        merges succeed.  Kept from the first round; SUPERSEDED by C13_merge_results_equiv (no premise on the supertypes),
+        C13_merge_order_independent / C13_merge_any_order_and_grouping (success and failure too) and the replay theorems
+        below. ---- *)
 Theorem C13_merge_order_independent_partial : forall inputs inputs' a b, all_WFh inputs -> all_WFh inputs' ->
   same_decls (type_list inputs) (type_list inputs') -> no_competing (type_list inputs) ->
   merge inputs = Ok a -> merge inputs' = Ok b -> ts_equiv a b = true.
@@ -229,6 +229,19 @@ Theorem C13_merge_regroup_outer : forall a b c, all_WFh [a; b; c] -> nofinal (ty
   same_outcome (do r <- merge [a; c];; merge [r; b]) (merge [a; b; c]).
 Proof. exact merge_regroup_outer. Qed.
 Print Assumptions C13_merge_regroup_outer.
+(* ---- ORDER AND GROUPING in general.  A merge expression (gexp: an input, or merge_typesystems applied to sub-expressions;
+        geval propagates an exception of a sub-merge; leaves: its inputs, left to right).  Under the side condition of the
+        flat tuple of its inputs, ANY nesting of merges has the same outcome as the merge of all the inputs at once - and as
+        the flat merge of any tuple with the same declarations (a permutation in particular). ---- *)
+Theorem C13_merge_any_grouping : forall l, all_WFh (flat_map leaves l) -> nofinal (type_list (flat_map leaves l)) ->
+  side_cond (type_list (flat_map leaves l)) -> same_outcome (geval (GM l)) (merge (flat_map leaves l)).
+Proof. exact merge_any_grouping. Qed.
+Print Assumptions C13_merge_any_grouping.
+Theorem C13_merge_any_order_and_grouping : forall l inputs', all_WFh (flat_map leaves l) -> all_WFh inputs' ->
+  nofinal (type_list (flat_map leaves l)) -> side_cond (type_list (flat_map leaves l)) ->
+  same_static (type_list (flat_map leaves l)) (type_list inputs') -> same_outcome (geval (GM l)) (merge inputs').
+Proof. exact merge_any_order_and_grouping. Qed.
+Print Assumptions C13_merge_any_order_and_grouping.
 (* no well-formed input can stall the readiness loop: the "no progress" ValueError needs a hand-made declaration list *)
 Theorem C13_merge_all_ready : forall inputs, all_WFh inputs -> forall x s, user_edge (type_list inputs) x s -> proc (type_list inputs) s.
 Proof. exact proc_all. Qed.
@@ -274,6 +287,22 @@ Theorem C13_add_feature_mech_skeleton : forall ts dom f, WFh (strip ts) -> WFf t
 Proof. exact add_feature_mech_HI. Qed.
 Print Assumptions C13_add_feature_mech_skeleton.
 
+(* ---- WHAT IS NOT CLAIMED, and the premises in one place.
+   * all_WFh inputs (boolean twin wfhb; C10_reachable_WF for API-built inputs) everywhere; nofinal / all_nofinal (no declared
+     supertype is inheritance-final: C10 reachable_no_final_parent for API-built inputs) wherever SUCCESS is concluded:
+     re-parenting has no final check, so a hand-made input may merge below a final type while create_type refuses it.
+   * side_cond counts the built-in declaration of DocumentAnnotation as a declaration (an input that re-declares it with
+     another supertype makes it "competing"): marginally stronger than the property's wording.
+   * Order independence of SUCCESS needs the side condition (RefutedC13.order_independence_without_side_condition_refuted);
+     equivalence of two successful results does not (C13_merge_results_equiv).
+   * ts_equiv / same_outcome compare types, supertypes and effective features as sets of (name, range, element type or TOP):
+     registration order, children order, descriptions and the multipleReferencesAllowed flag are outside (the property
+     excludes the last two); children as SETS and own features are covered for the replay theorems (same_tree, replays).
+   * Replay needs init_embedded (RefutedC13.replay_without_document_annotation_refuted); own features are reproduced as a
+     subset only (RefutedC13.replay_own_features_exact_refuted: an own feature that duplicates an inherited one is dropped).
+   * merge_inputs_unchanged is trivial in a functional model (see above); object identity is a ghost (C13_merge_no_foreign_refs).
+   Nothing of the property's statement is left as a comment only. ---- *)
+
 (* ================================================================================================ non-vacuity *)
 Definition ex_a : tsys := final_ts [CT "a.A" ANNOTATION; CT "a.B" "a.A"; CT "a.X" "a.A"; CF "a.B" "f" "uima.cas.String" None] init_ts.
 Definition ex_b : tsys := final_ts [CT "a.A" ANNOTATION; CT "a.B" "a.A"; CT "a.X" "a.B"] init_ts.
@@ -303,3 +332,9 @@ Qed.
 (* the premises of the replay theorem hold of a type system with a feature *)
 Example C13_replay_nonvacuous : wfb ex_a = true /\ init_embeddedb ex_a = true /\ no_final_parentb ex_a = true.
 Proof. vm_compute. repeat split. Qed.
+
+(* a nested merge over inputs that meet the side condition: merge(merge(a, b), a) *)
+Example C13_grouping_nonvacuous :
+  side_condb (type_list (flat_map leaves [GM [GIn ex_a; GIn ex_b]; GIn ex_a])) = true /\
+  exists r, geval (GM [GM [GIn ex_a; GIn ex_b]; GIn ex_a]) = Ok r /\ wfb r = true.
+Proof. split; [vm_compute; reflexivity|]. eexists. vm_compute. split; reflexivity. Qed.
